@@ -13,6 +13,7 @@ Clauses:
 -/
 import Neutrino.Lemmas.UtxoPerm
 import Neutrino.Lemmas.UtxoExact
+import Neutrino.Gen.Utxo
 namespace Neutrino.Utxo
 
 /-! ### example world (non-vacuity): tx 1 (two outputs) is created at height 0, output 0 is spent at height 2 by tx 2;
@@ -192,5 +193,25 @@ theorem C10_spin_only_above_tip (w : World) (sf mf : Nat) (init : List Req) :
   intro r hs
   exact mgr_spin w sf mf _ hs
 
--- C10_source_facts goes here (parent adds it)
+/-- What the model takes from the Go source, re-extracted from the repo's working tree on every run:
+`ProcessBlock` adds the new requests and looks for their initial outputs before it looks for spends (`joinReq`
+before `notifySpends`); `dequeueAtHeight` defers with `<` and takes with `==` (the partition in `stepH`);
+`scanFromHeight` makes a fresh reporter, fails the remaining requests on every error path and ends with
+`NotifyUnspentAndUnfound` (`scan`); `notifyRequests` forgets the outpoint in all three maps before it delivers (one
+`Entry` list); a nil initial report does not overwrite a recorded one (`mergeInit`, the F5 repair); `deliver` is a
+non-blocking send on a channel of capacity 1 (`ReqObj`). -/
+theorem C10_source_facts :
+    Gen.Utxo.processBlockSteps = ["b.addNewRequests", "b.findInitialTransactions", "b.notifySpends"] ∧
+    Gen.Utxo.dequeueOps = ["<", "=="] ∧
+    Gen.Utxo.dequeueTargets = ["s.nextBatch", "requests"] ∧
+    Gen.Utxo.scanSeq = ["s.cfg.BestSnapshot", "newBatchSpendReporter", "reporter.FailRemaining",
+      "s.cfg.GetBlockHash", "reporter.FailRemaining", "s.dequeueAtHeight", "s.cfg.BlockFilterMatches",
+      "reporter.FailRemaining", "reporter.NotifyProgress", "reporter.FailRemaining", "s.cfg.GetBlock",
+      "reporter.FailRemaining", "reporter.FailRemaining", "reporter.ProcessBlock", "reporter.NotifyProgress",
+      "s.cfg.BestSnapshot", "reporter.FailRemaining", "reporter.NotifyUnspentAndUnfound"] ∧
+    Gen.Utxo.notifyRequestsSeq = ["delete b.requests", "delete b.initialTxns", "delete b.outpoints", "deliver"] ∧
+    Gen.Utxo.initialKeepsNonNil = true ∧
+    Gen.Utxo.deliverNonBlocking = true ∧
+    Gen.Utxo.resultChanCap = 1 := by decide
+
 end Neutrino.Utxo
